@@ -29,7 +29,6 @@ import (
 
 	"github.com/hashicorp/consul/agent/consul/state"
 	"github.com/hashicorp/consul/agent/structs"
-	"github.com/hashicorp/consul/proto/private/pbpeering"
 )
 
 // projectedFields: table -> top-level field names dropped from the row in both renderings.
@@ -63,10 +62,11 @@ const (
 	mOrphanSecret                      // peering-secret-uuids: the secrets of a row that outlived its peering are recorded by the restore
 	mStaleKindName                     // kind-service-names: rows no registered instance backs any more are not rebuilt
 	mWildcardUnbacked                  // gateway-services / mesh-topology: which names a wildcard gateway maps depends on the write order
-	mAll           = mUsage | mCheckRefresh | mGatewayStamp | mTopologyStamp | mOrphanSecret | mStaleKindName | mWildcardUnbacked
+	mStaleDestName                     // kind-service-names: a "destination" row stays when service-defaults is rewritten without a Destination
+	mAll           = mUsage | mCheckRefresh | mGatewayStamp | mTopologyStamp | mOrphanSecret | mStaleKindName | mWildcardUnbacked | mStaleDestName
 )
 
-var maskList = []maskSet{mUsage, mCheckRefresh, mTopologyStamp, mGatewayStamp, mOrphanSecret, mStaleKindName, mWildcardUnbacked}
+var maskList = []maskSet{mUsage, mCheckRefresh, mTopologyStamp, mGatewayStamp, mOrphanSecret, mStaleKindName, mStaleDestName, mWildcardUnbacked}
 
 var maskKind = map[maskSet]string{
 	mUsage:         "usage-row-index-after-restore",
@@ -76,36 +76,13 @@ var maskKind = map[maskSet]string{
 	mOrphanSecret:  "orphan-peering-secret-uuid-added-by-restore",
 	mStaleKindName: "stale-kind-service-name-dropped-by-restore",
 	mWildcardUnbacked: "wildcard-gateway-mappings-depend-on-write-order",
+	mStaleDestName:    "stale-destination-kind-name-dropped-by-restore",
 }
-
-// tableMask: which deviation a strict-only difference in a table belongs to.
-var tableMask = map[string]maskSet{
-	"usage": mUsage, "checks": mCheckRefresh, "gateway-services": mGatewayStamp, "mesh-topology": mTopologyStamp,
-	"peering-secret-uuids": mOrphanSecret, "kind-service-names": mStaleKindName,
-}
-
-// indexRowMask: index-table rows whose value a known deviation changes (directly, or later in a
-// suffix as a consequence: e.g. a restored gateway-services row that already equals what a later
-// registration would write is not written again, so the table's index row is not bumped).
-func indexRowMask(key string) maskSet {
-	switch {
-	case strings.HasPrefix(key, "kind_service_names."):
-		return mStaleKindName
-	case key == "gateway-services" || key == "mesh-topology":
-		return mGatewayStamp
-	}
-	return 0
-}
-
-// tableMask2: a second deviation that can explain a strict-only difference of the table (decided
-// by whether the rows differ in number).
-var tableMask2 = map[string]maskSet{"gateway-services": mWildcardUnbacked, "mesh-topology": mWildcardUnbacked}
 
 type canonCtx struct {
-	masks maskSet
-	svcs  map[svcKey]svcInfo // services of the store the value came from
-	kinds map[string]bool    // "kind\x00name" pairs some registered local instance backs
-	wgw   map[string]bool    // gateways that have a wildcard ("*") mapping
+	masks   maskSet            // the deviations whose witness predicate holds for the cut being compared
+	refresh bool               // re-copy ServiceName/ServiceTags of checks from the store's services (mCheckRefresh)
+	svcs    map[svcKey]svcInfo // services of the store the value came from
 }
 
 var (
@@ -210,10 +187,10 @@ func (c *canonCtx) walk(v reflect.Value, sb *strings.Builder, depth int, skip []
 			// ServiceKind records which registrations existed when the row was last written
 			skip = append(append([]string{}, skip...), "RaftIndex", "ServiceKind")
 		}
-		if c.masks&mTopologyStamp != 0 && t.Name() == "upstreamDownstream" {
+		if c.masks&(mTopologyStamp|mGatewayStamp) != 0 && t.Name() == "upstreamDownstream" {
 			skip = append(append([]string{}, skip...), "RaftIndex")
 		}
-		if c.masks&mCheckRefresh != 0 && t == hcType && c.svcs != nil {
+		if c.refresh && c.masks&mCheckRefresh != 0 && t == hcType && c.svcs != nil {
 			sid := v.FieldByName("ServiceID").String()
 			if sid != "" {
 				k := svcKey{strings.ToLower(v.FieldByName("Node").String()), strings.ToLower(sid), strings.ToLower(v.FieldByName("PeerName").String())}
@@ -330,208 +307,10 @@ func (c *canonCtx) walk(v reflect.Value, sb *strings.Builder, depth int, skip []
 	}
 }
 
-// ---------------------------------------------------------------- table dumps
+// ---------------------------------------------------------------- table diffs
 
 // tableDump: table name -> sorted canonical rows.
 type tableDump map[string][]string
-
-type fullDump struct {
-	strict  tableDump
-	lenient tableDump
-	// usageRaw: the usage rows as stored (id, index, count), for re-confirming finding 14
-	usageRaw []string
-	rows     int
-	// stale: some check carries a ServiceName / ServiceTags other than its service's current ones
-	stale bool
-}
-
-func servicesOf(st *state.Store) map[svcKey]svcInfo {
-	out, _ := servicesAndKindsOf(st)
-	return out
-}
-
-// servicesAndKindsOf: the service instances, and the (kind, name) pairs that upsertKindServiceName
-// would record for them (the kind of each local instance under its name; "connect-enabled" for
-// the destination of a proxy and for a connect-native service).
-func servicesAndKindsOf(st *state.Store) (map[svcKey]svcInfo, map[string]bool) {
-	out := map[svcKey]svcInfo{}
-	kinds := map[string]bool{}
-	st.WalkAllTables(func(table string, item interface{}) bool {
-		if sn, ok := item.(*structs.ServiceNode); ok {
-			out[svcKey{strings.ToLower(sn.Node), strings.ToLower(sn.ServiceID), strings.ToLower(sn.PeerName)}] = svcInfo{sn.ServiceName, sn.ServiceTags}
-			if sn.PeerName == "" {
-				kinds[strings.ToLower(string(sn.ServiceKind)+"\x00"+sn.ServiceName)] = true
-				if sn.ServiceKind == structs.ServiceKindConnectProxy && sn.ServiceProxy.DestinationServiceName != "" {
-					kinds[strings.ToLower(string(structs.ServiceKindConnectEnabled)+"\x00"+sn.ServiceProxy.DestinationServiceName)] = true
-				}
-				if sn.ServiceConnect.Native {
-					kinds[strings.ToLower(string(structs.ServiceKindConnectEnabled)+"\x00"+sn.ServiceName)] = true
-				}
-			}
-		}
-		return true
-	})
-	return out, kinds
-}
-
-// staleChecks: some service check carries a ServiceName / ServiceTags other than its service's.
-func staleChecks(st *state.Store) bool {
-	svcs := servicesOf(st)
-	found := false
-	st.WalkAllTables(func(table string, item interface{}) bool {
-		if hc, ok := item.(*structs.HealthCheck); ok && hc.ServiceID != "" {
-			if si, ok := svcs[svcKey{strings.ToLower(hc.Node), strings.ToLower(hc.ServiceID), strings.ToLower(hc.PeerName)}]; ok {
-				if si.name != hc.ServiceName || strings.Join(si.tags, "\x00") != strings.Join(hc.ServiceTags, "\x00") {
-					found = true
-				}
-			}
-		}
-		return true
-	})
-	return found
-}
-
-// topologyPairs: the (upstream, downstream) pairs the registered proxies give rise to.
-func topologyPairs(st *state.Store) map[string]bool {
-	out := map[string]bool{}
-	st.WalkAllTables(func(table string, item interface{}) bool {
-		if sn, ok := item.(*structs.ServiceNode); ok && sn.PeerName == "" && sn.ServiceKind == structs.ServiceKindConnectProxy {
-			for _, u := range sn.ServiceProxy.Upstreams {
-				if u.DestinationType != structs.UpstreamDestTypePreparedQuery {
-					out[strings.ToLower(u.DestinationName+"\x00"+sn.ServiceProxy.DestinationServiceName)] = true
-				}
-			}
-		}
-		return true
-	})
-	return out
-}
-
-func dumpStore(st *state.Store) *fullDump {
-	svcs, kinds := servicesAndKindsOf(st)
-	wild := hasWildcard(st)
-	pairs := topologyPairs(st)
-	sc := &canonCtx{}
-	lc := &canonCtx{masks: mAll, svcs: svcs, kinds: kinds, wgw: wildcardGateways(st)}
-	d := &fullDump{strict: tableDump{}, lenient: tableDump{}}
-	dialers := map[string]bool{}   // peering id -> dials
-	active := map[string]string{} // peering id -> active stream secret
-	acceptorSecrets := map[string]bool{}
-	var secretRows []*pbpeering.PeeringSecrets
-	st.WalkAllTables(func(table string, item interface{}) bool {
-		d.rows++
-		skip := projectedFields[table]
-		var row interface{} = item
-		switch table {
-		case "prepared-queries":
-			// *queryWrapper{*structs.PreparedQuery; ct *CompiledTemplate}
-			rv := reflect.Indirect(reflect.ValueOf(item))
-			pq := rv.FieldByName("PreparedQuery").Interface()
-			hasCT := !rv.FieldByName("ct").IsNil()
-			row = struct {
-				Query    interface{}
-				Compiled bool
-			}{pq, hasCT}
-		case "usage":
-			ue := reflect.Indirect(reflect.ValueOf(item))
-			id, idx, cnt := ue.FieldByName("ID").String(), ue.FieldByName("Index").Uint(), ue.FieldByName("Count").Int()
-			d.usageRaw = append(d.usageRaw, fmt.Sprintf("%s index=%d count=%d", id, idx, cnt))
-			d.strict[table] = append(d.strict[table], fmt.Sprintf("{ID:%q,Index:%d,Count:%d}", id, idx, cnt))
-			if cnt != 0 {
-				d.lenient[table] = append(d.lenient[table], fmt.Sprintf("{ID:%q,Count:%d}", id, cnt))
-			}
-			return true
-		case "index":
-			ie := item.(*state.IndexEntry)
-			d.strict[table] = append(d.strict[table], fmt.Sprintf("{Key:%q,Value:%d}", ie.Key, ie.Value))
-			if indexRowMask(ie.Key) != 0 {
-				d.lenient[table] = append(d.lenient[table], fmt.Sprintf("{Key:%q,Value:0}", ie.Key))
-			} else {
-				d.lenient[table] = append(d.lenient[table], fmt.Sprintf("{Key:%q,Value:%d}", ie.Key, ie.Value))
-			}
-			return true
-		case "peering":
-			if p, ok := item.(*pbpeering.Peering); ok {
-				dialers[p.ID] = p.ShouldDial()
-			}
-		case "peering-secrets":
-			if p, ok := item.(*pbpeering.PeeringSecrets); ok {
-				active[p.PeerID] = p.GetStream().GetActiveSecretID()
-				secretRows = append(secretRows, p)
-			}
-		case "gateway-services":
-			if lc.unbackedWildcard(reflect.ValueOf(item)) {
-				var sb strings.Builder
-				sc.walk(reflect.ValueOf(row), &sb, 0, skip)
-				d.strict[table] = append(d.strict[table], sb.String())
-				return true
-			}
-		case "mesh-topology":
-			// strict: the row; lenient: only that the (upstream, downstream) pair exists, and only for
-			// pairs the registered proxies give rise to (or, without wildcard gateways, gateway rows)
-			rv := reflect.Indirect(reflect.ValueOf(item))
-			up := rv.FieldByName("Upstream").FieldByName("Name").String()
-			down := rv.FieldByName("Downstream").FieldByName("Name").String()
-			var sb strings.Builder
-			sc.walk(reflect.ValueOf(row), &sb, 0, skip)
-			d.strict[table] = append(d.strict[table], sb.String())
-			if rv.FieldByName("Refs").Len() == 0 {
-				if !wild {
-					d.lenient[table] = append(d.lenient[table], fmt.Sprintf("{gateway pair %q<-%q}", up, down))
-				}
-			} else if pairs[strings.ToLower(up+"\x00"+down)] {
-				d.lenient[table] = append(d.lenient[table], fmt.Sprintf("{proxy pair %q<-%q}", up, down))
-			}
-			return true
-		case "kind-service-names":
-			ksn := item.(*state.KindServiceName)
-			var sb strings.Builder
-			sc.walk(reflect.ValueOf(row), &sb, 0, skip)
-			d.strict[table] = append(d.strict[table], sb.String())
-			if kinds[strings.ToLower(string(ksn.Kind)+"\x00"+ksn.Service.Name)] {
-				d.lenient[table] = append(d.lenient[table], sb.String())
-			}
-			return true
-		}
-		var sb, lb strings.Builder
-		sc.walk(reflect.ValueOf(row), &sb, 0, skip)
-		lc.walk(reflect.ValueOf(row), &lb, 0, skip)
-		d.strict[table] = append(d.strict[table], sb.String())
-		d.lenient[table] = append(d.lenient[table], lb.String())
-		return true
-	})
-	// lenient: the UUIDs of a secrets row that outlived its peering (a write in state DELETING that
-	// carried secrets, then PeeringDelete: nothing deletes the row) do not count: without the
-	// peering row the restorer cannot know whether the peer dialed, and records them
-	for _, p := range secretRows {
-		if _, known := dialers[p.PeerID]; known {
-			continue
-		}
-		for _, id := range []string{p.GetEstablishment().GetSecretID(), p.GetStream().GetPendingSecretID(), p.GetStream().GetActiveSecretID()} {
-			if id != "" {
-				acceptorSecrets[strconv.Quote(id)] = true // here: ids of orphan rows
-			}
-		}
-	}
-	var keep []string
-	for _, r := range d.lenient["peering-secret-uuids"] {
-		if !acceptorSecrets[r] {
-			keep = append(keep, r)
-		}
-	}
-	if len(d.lenient["peering-secret-uuids"]) > 0 {
-		d.lenient["peering-secret-uuids"] = keep
-	}
-	_ = active
-	for _, td := range []tableDump{d.strict, d.lenient} {
-		for t := range td {
-			sort.Strings(td[t])
-		}
-	}
-	sort.Strings(d.usageRaw)
-	d.stale = staleChecks(st)
-	return d
-}
 
 // diffTables returns the tables whose rows differ, with the first differing row of each side.
 type tableDiff struct {
@@ -608,133 +387,11 @@ func diffTables(a, b tableDump) []tableDiff {
 
 // ---------------------------------------------------------------- read queries
 
-type queryResult struct {
-	name   string
-	idx    uint64
-	err    string
-	res    interface{}
-	svcs   map[svcKey]svcInfo
-	kinds  map[string]bool
-	wgw    map[string]bool
-	wild   bool
-	strict string
-}
-
-// idxMask: the deviations that change the INDEX a query family reports.
-func idxMask(name string, relax bool) maskSet {
-	fam := strings.SplitN(name, ":", 2)[0]
-	if relax {
-		// consequences of stale check fields: deleting / rewriting such a check bumps the index
-		// row of the service name it carries
-		switch fam {
-		case "ServiceNodes", "CheckServiceNodes", "CheckConnectServiceNodes", "ServiceChecks":
-			return mCheckRefresh | idxMask(name, false)
-		}
-	}
-	switch fam {
-	case "ServiceUsage", "NodeUsage", "PeeringUsage", "KVUsage", "ConfigEntryUsage":
-		return mUsage
-	case "GatewayServices", "DumpGatewayServices", "CheckConnectServiceNodes":
-		return mGatewayStamp
-	case "ServiceTopology":
-		return mGatewayStamp | mTopologyStamp
-	case "ServiceNamesOfKind":
-		return mStaleKindName
-	}
-	return 0
-}
-
-// kindNames: the result of ServiceNamesOfKind with, per name, whether an instance backs it.
-type kindNames struct {
-	Names  []string
-	Backed []bool
-}
-
-func sortCSN(l structs.CheckServiceNodes) {
-	c := &canonCtx{}
-	keys := make([]string, len(l))
-	for i := range l {
-		keys[i] = c.render(l[i])
-	}
-	sort.Sort(&csnSorter{l, keys})
-}
-
-type csnSorter struct {
-	l    structs.CheckServiceNodes
-	keys []string
-}
-
-func (s *csnSorter) Len() int           { return len(s.l) }
-func (s *csnSorter) Less(i, j int) bool { return s.keys[i] < s.keys[j] }
-func (s *csnSorter) Swap(i, j int) {
-	s.l[i], s.l[j] = s.l[j], s.l[i]
-	s.keys[i], s.keys[j] = s.keys[j], s.keys[i]
-}
-
-// hasWildcard: some gateway-services row is a wildcard row or was derived from one.
-func hasWildcard(st *state.Store) bool {
-	found := false
-	st.WalkAllTables(func(table string, item interface{}) bool {
-		if gs, ok := item.(*structs.GatewayService); ok && (gs.FromWildcard || gs.Service.Name == structs.WildcardSpecifier) {
-			found = true
-		}
-		return true
-	})
-	return found
-}
-
-// wildcardGateways: the gateways that have a "*" mapping.
-func wildcardGateways(st *state.Store) map[string]bool {
-	out := map[string]bool{}
-	st.WalkAllTables(func(table string, item interface{}) bool {
-		if gs, ok := item.(*structs.GatewayService); ok && gs.Service.Name == structs.WildcardSpecifier {
-			out[strings.ToLower(gs.Gateway.Name)] = true
-		}
-		return true
-	})
-	return out
-}
-
-func (q *queryResult) render(masks maskSet) string { return q.renderR(masks, false) }
-
-// renderR: [relax] = a check with stale service fields existed at or after the cut, so queries
-// keyed by the check's ServiceName (ServiceChecks) may list it under the other name.
-func (q *queryResult) renderR(masks maskSet, relax bool) string {
-	c := &canonCtx{masks: masks, svcs: q.svcs, kinds: q.kinds, wgw: q.wgw}
-	if relax && masks&mCheckRefresh != 0 && strings.HasPrefix(q.name, "ServiceChecks:") {
-		return "idx=* (checks by service name, with stale service names around: masked)"
-	}
-	if masks&mWildcardUnbacked != 0 && q.wild && strings.HasPrefix(q.name, "ServiceTopology:") {
-		return "idx=* (topology of a store with wildcard gateways: masked)"
-	}
-	if masks&mTopologyStamp != 0 && strings.HasPrefix(q.name, "ServiceTopology:") {
-		// the upstream / downstream sets and decisions are read off the mesh-topology rows
-		return "idx=* (service topology: masked)"
-	}
-	if kn, ok := q.res.(kindNames); ok {
-		var names []string
-		for i, n := range kn.Names {
-			if masks&mStaleKindName == 0 || kn.Backed[i] {
-				names = append(names, n)
-			}
-		}
-		if masks&mStaleKindName != 0 {
-			return fmt.Sprintf("idx=*%s %s", q.err, c.render(names))
-		}
-		return fmt.Sprintf("idx=%d%s %s", q.idx, q.err, c.render(names))
-	}
-	if idxMask(q.name, relax)&masks != 0 {
-		return fmt.Sprintf("idx=*%s %s", q.err, c.render(q.res))
-	}
-	return fmt.Sprintf("idx=%d%s %s", q.idx, q.err, c.render(q.res))
-}
-
 // runQueries evaluates the fixed list of read queries on a store. Every entry records the
 // reported query index and the canonical result.
 func runQueries(st *state.Store, u *universe) []queryResult {
-	svcs, kinds := servicesAndKindsOf(st)
-	wild := hasWildcard(st)
-	wgw := wildcardGateways(st)
+	env := envOf(st)
+	kinds := env.kinds
 	var out []queryResult
 	em := structs.DefaultEnterpriseMetaInDefaultPartition()
 	add := func(name string, idx uint64, res interface{}, err error) {
@@ -742,8 +399,8 @@ func runQueries(st *state.Store, u *universe) []queryResult {
 		if err != nil {
 			e = " err=" + err.Error()
 		}
-		q := queryResult{name: name, idx: idx, err: e, res: res, svcs: svcs, kinds: kinds, wild: wild, wgw: wgw}
-		q.strict = q.render(0)
+		q := queryResult{name: name, idx: idx, err: e, res: res, env: env}
+		q.strict = q.render(nil, false)
 		out = append(out, q)
 	}
 	for _, k := range u.keys {
@@ -824,7 +481,7 @@ func runQueries(st *state.Store, u *universe) []queryResult {
 		idx, vips, err := st.ServiceVirtualIPs()
 		add("ServiceVirtualIPs", idx, vips, err)
 		for _, kind := range []structs.ServiceKind{structs.ServiceKindTypical, structs.ServiceKindConnectProxy, structs.ServiceKindTerminatingGateway,
-			structs.ServiceKindIngressGateway, structs.ServiceKindMeshGateway, structs.ServiceKindConnectEnabled} {
+			structs.ServiceKindIngressGateway, structs.ServiceKindMeshGateway, structs.ServiceKindConnectEnabled, structs.ServiceKindDestination} {
 			idx, kn, err := st.ServiceNamesOfKind(nil, kind)
 			// the rows carry the private RaftIndex: project it away as in the table dump
 			names := kindNames{}
